@@ -202,11 +202,12 @@ def lib_ver():
             "p4": {"name": "test:p4", "version": "2.0.0", "imports": [("ns:p/i@1.0.0", Ix), ("ns:p/j@1.1.0", Iy)], "exports": [("ns:p/i@1.2.0", Ixy)]},
             "p5": {"name": "test:p5", "version": None, "imports": [("ns:p/i@1.1.0", Iy), ("ns:p/j@1.0.0", Ix)], "exports": [("ns:p/j@1.0.0", Ixy)]},
         },
-        "kinds": {"Ix": Ix, "Ixy": Ixy},
-        "import_names": ["ns:p/i@0.2.0", "ns:p/i@1.3.0"],
+        # explicit imports on the track of implicit ones: mergeable (Ix) and not mergeable (IxB)
+        "kinds": {"Ix": Ix, "IxB": IxB},
+        "import_names": ["ns:p/i@0.2.2", "ns:p/i@1.3.0"],
         "export_names": ["e1"],
         "def_names": [],
-        "valid_names": ["ns:p/i@0.2.0", "ns:p/i@1.3.0", "e1"],
+        "valid_names": ["ns:p/i@0.2.2", "ns:p/i@1.3.0", "e1"],
         "deftypes": {},
     }
 
